@@ -161,6 +161,7 @@ def query_encoding(rep, ex: Explorer, cls=CI):
                 got_ = "minimum encoding"
             ok_ = emp is True and got_ == ("no constraint" if have == "v" else "unsatisfiable constraint")
             missing = "falsifying" if have == "v" else "verifying"
+            n += 1
             rep.check(ok_, "C.query-edges", site, f"result without the {missing} family", f"a query constraint is returned only after both families of correction sets were computed, or after the one computed was found empty (an unflagged answer must not rest on a family nobody enumerated)",
                       extracted=f"returns '{got_}' on a path that never computes the {missing} correction sets (decided by: {'; '.join(show_pred(k)[:50] + '=' + str(v) for k, v in p.decisions[-3:])})"[:300],
                       required="both families computed, or TimeoutError", function=site)
